@@ -15,15 +15,17 @@ IMPORTS = "From DtlsV Require Import Lib.Bytes Crypto.C10Run."
 
 # (leg, package, test regexp, site reported for mismatches)
 HARNESSES = [
-    ("prf", "./pkg/crypto/prf", "^TestVerifC10Prf$", "pkg/crypto/prf/prf.go"),
+    # the first two legs start with the regression corpus (former failing inputs of the fixed defects
+    # F8 "CBC connection-ID MAC" and F7 "DTLS 1.3 exporter keyed with the empty secret")
     ("suite", "./pkg/crypto/ciphersuite", "^TestVerifC10Suite$", "pkg/crypto/ciphersuite"),
+    ("exporter", ".", "^TestVerifC10ExporterUnit$", "state.go ExportKeyingMaterial"),
+    ("exporter-e2e", ".", "^TestVerifC10ExporterE2E$", "state.go ExportKeyingMaterial"),
+    ("prf", "./pkg/crypto/prf", "^TestVerifC10Prf$", "pkg/crypto/prf/prf.go"),
     ("ccm", "./pkg/crypto/ciphersuite", "^TestVerifC10CCMMode$", "pkg/crypto/ccm/ccm.go"),
     ("suites12", "./internal/ciphersuite", "^TestVerifC10Suites12$", "internal/ciphersuite Init/Encrypt"),
     ("keyschedule", "./pkg/crypto/keyschedule", "^TestVerifC10KeySchedule$", "pkg/crypto/keyschedule/keyschedule.go"),
     ("schedule13", "./internal/handshake", "^TestVerifC10Schedule13$", "internal/handshake/traffic_secrets.go"),
     ("keymessage", "./internal/handshakecrypto", "^TestVerifC10KeyMessage$", "internal/handshakecrypto/crypto.go ValueKeyMessage"),
-    ("exporter", ".", "^TestVerifC10ExporterUnit$", "state.go ExportKeyingMaterial"),
-    ("exporter-e2e", ".", "^TestVerifC10ExporterE2E$", "state.go ExportKeyingMaterial"),
     ("live", ".", "^TestVerifC10Live$", "conn.go record protection (live traffic, key-log keyed decoder)"),
     ("record13", "./internal/ciphersuite", "^TestVerifC10Record13$", "internal/ciphersuite/tls_13_record_protection.go"),
 ]
@@ -49,6 +51,37 @@ def model_value(c, name):
         return "None (model does not define this function code / arity)"
     lists = re.findall(r"\[([0-9;\s]*)\]", body)
     return ["".join("%02x" % int(x) for x in re.findall(r"\d+", l)) for l in lists]
+
+
+HASHES = {256: "sha256", 384: "sha384", 512: "sha512", 1: "sha1"}
+
+
+def py_p_hash(hname, secret, seed, n):
+    """TLS 1.2 P_hash with Python's hmac - used only by the implementation-side monitor below"""
+    import hashlib
+    import hmac
+    h = getattr(hashlib, hname)
+    out, a = b"", seed
+    while len(out) < n:
+        a = hmac.new(secret, a, h).digest()
+        out += hmac.new(secret, a + seed, h).digest()
+    return out[:n]
+
+
+def monitor(c):
+    """the property's own predicates evaluated on one implementation observation; None or a description.
+    (1) regression corpus: the output is the recorded RFC value;
+    (2) a DTLS 1.3 exporter output is not computable from the two hello randoms alone."""
+    if c.get("expect") and (not c["out"] or c["out"][0] != c["expect"]):
+        return "regression corpus case no longer yields the recorded RFC value %s" % c["expect"]
+    if c["fn"] == 61 and c.get("cr") and c.get("sr") and c["n"] and c["n"][0] > 0:
+        label = bytes.fromhex(c["in"][1])
+        pub = py_p_hash(HASHES.get(c["h"], "sha256"), b"", label + bytes.fromhex(c["cr"]) + bytes.fromhex(c["sr"]),
+                        c["n"][0])
+        if c["out"] and bytes.fromhex(c["out"][0]) == pub:
+            return "DTLS 1.3 exporter output equals P_hash(\"\", label || client_random || server_random): " \
+                   "computable by anyone who saw the hello messages"
+    return None
 
 
 def nontrivial(c):
@@ -107,8 +140,18 @@ def run(chk):
     if not ok_model:
         chk.broken("model Crypto/C10Run.v no longer compiles", mo)
     else:
-        # one parallel evaluation over the cases of all legs
+        # implementation-side monitors (regression corpus values, exporter secrecy consequence)
         allc = [(leg, site, c) for leg, site, cases in legs for c in cases]
+        mon_reported = set()
+        for leg, site, c in allc:
+            m = monitor(c)
+            if m and (c.get("tag"), m[:40]) not in mon_reported:
+                mon_reported.add((c.get("tag"), m[:40]))
+                found_input = True
+                chk.finding(c.get("site") or site, {"monitor": m.split(":")[0][:60], "function": c.get("tag")}, m,
+                            {"function": c.get("tag"), "case": c,
+                             "rerun": "VERIF_SEED=%d bin/check C10 --tier %s" % (chk.seed, chk.tier)})
+        # one parallel evaluation over the cases of all legs
         terms = [term(c) for _, _, c in allc]
         shard = max(8, min(40, len(terms) // 36 + 1))
         bad, err = vlib.coq_mismatches("c10", IMPORTS, "c10_case", "case_ok", terms, shard=shard)
@@ -159,8 +202,11 @@ def run(chk):
     chk.finish(
         level="proof",
         rule="Each evaluation = one call of a real Go function (exported or unexported, in-package) on generated "
-             "inputs, its outputs compared byte-for-byte with the independent Gallina implementation evaluated by "
-             "vm_compute. Non-trivial = at least one non-empty output; distinct by (function, hash, inputs).",
+             "inputs (or one record / exporter call of a real connection), its outputs compared byte-for-byte with the "
+             "independent Gallina implementation of the RFC formula evaluated by vm_compute; function code 63 is the "
+             "negative monitor 'DTLS 1.3 exporter output != P_hash(empty, label||hello randoms)'. The suite and exporter "
+             "legs start with the regression corpus of the fixed defects (recorded inputs and RFC values). "
+             "Non-trivial = at least one non-empty output; distinct by (function, hash, inputs).",
         assumptions=["Go stdlib / x/crypto primitives (AES, GCM, ChaCha20-Poly1305, ECDH, ML-KEM) are outside /repo: "
                      "used as oracles for the primitive only; their inputs (key, nonce, AAD) are compared with the model",
                      "the model is hand-written from the RFC text; it is pinned to the standards by the known-answer "
